@@ -132,22 +132,22 @@ struct Run {
 	}
 
 	// ---- conversions from native
-	static void fromd(double d) { C c; c = d; std::printf("%s fromd %llx => %llx\n", hdr, (ull)uv::double2bits(d), enc(c)); }
-	static void fromf(float f) { C c; c = f; std::printf("%s fromf %x => %llx\n", hdr, uv::float2bits(f), enc(c)); }
+	static void fromd(double d) { C c; c.setbits(0x5a5a5a5a5a5a5a5aull & uv::mask(nbits)); c = d; std::printf("%s fromd %llx => %llx\n", hdr, (ull)uv::double2bits(d), enc(c)); }
+	static void fromf(float f) { C c; c.setbits(0x5a5a5a5a5a5a5a5aull & uv::mask(nbits)); c = f; std::printf("%s fromf %x => %llx\n", hdr, uv::float2bits(f), enc(c)); }
 	static void fromi(long long v) {
 		// signed: the same value through every type that holds it
-		if (v >= -128 && v <= 127) { C c; c = (signed char)v; std::printf("%s fromi8 %lld => %llx\n", hdr, v, enc(c)); }
-		if (v >= -32768 && v <= 32767) { C c; c = (short)v; std::printf("%s fromi16 %lld => %llx\n", hdr, v, enc(c)); }
-		if (v >= -2147483648ll && v <= 2147483647ll) { C c; c = (int)v;   // INT_MIN included since repair 9d458c8 (magnitude in unsigned arithmetic)
+		if (v >= -128 && v <= 127) { C c; c.setbits(0x5a5a5a5a5a5a5a5aull & uv::mask(nbits)); c = (signed char)v; std::printf("%s fromi8 %lld => %llx\n", hdr, v, enc(c)); }
+		if (v >= -32768 && v <= 32767) { C c; c.setbits(0x5a5a5a5a5a5a5a5aull & uv::mask(nbits)); c = (short)v; std::printf("%s fromi16 %lld => %llx\n", hdr, v, enc(c)); }
+		if (v >= -2147483648ll && v <= 2147483647ll) { C c; c.setbits(0x5a5a5a5a5a5a5a5aull & uv::mask(nbits)); c = (int)v;   // INT_MIN included since repair 9d458c8 (magnitude in unsigned arithmetic)
 			 std::printf("%s fromi32 %lld => %llx\n", hdr, v, enc(c)); }
-		{ C c; c = (long long)v; std::printf("%s fromi64 %lld => %llx\n", hdr, v, enc(c)); }
-		{ C c; c = (long)v; std::printf("%s fromi64 %lld => %llx\n", hdr, v, enc(c)); }
+		{ C c; c.setbits(0x5a5a5a5a5a5a5a5aull & uv::mask(nbits)); c = (long long)v; std::printf("%s fromi64 %lld => %llx\n", hdr, v, enc(c)); }
+		{ C c; c.setbits(0x5a5a5a5a5a5a5a5aull & uv::mask(nbits)); c = (long)v; std::printf("%s fromi64 %lld => %llx\n", hdr, v, enc(c)); }
 	}
 	static void fromu(ull v) {
-		if (v <= 65535ull) { C c; c = (unsigned short)v; std::printf("%s fromu16 %llu => %llx\n", hdr, v, enc(c)); }
-		if (v <= 4294967295ull) { C c; c = (unsigned int)v; std::printf("%s fromu32 %llu => %llx\n", hdr, v, enc(c)); }
-		{ C c; c = (unsigned long long)v; std::printf("%s fromu64 %llu => %llx\n", hdr, v, enc(c)); }
-		{ C c; c = (unsigned long)v; std::printf("%s fromu64 %llu => %llx\n", hdr, v, enc(c)); }
+		if (v <= 65535ull) { C c; c.setbits(0x5a5a5a5a5a5a5a5aull & uv::mask(nbits)); c = (unsigned short)v; std::printf("%s fromu16 %llu => %llx\n", hdr, v, enc(c)); }
+		if (v <= 4294967295ull) { C c; c.setbits(0x5a5a5a5a5a5a5a5aull & uv::mask(nbits)); c = (unsigned int)v; std::printf("%s fromu32 %llu => %llx\n", hdr, v, enc(c)); }
+		{ C c; c.setbits(0x5a5a5a5a5a5a5a5aull & uv::mask(nbits)); c = (unsigned long long)v; std::printf("%s fromu64 %llu => %llx\n", hdr, v, enc(c)); }
+		{ C c; c.setbits(0x5a5a5a5a5a5a5a5aull & uv::mask(nbits)); c = (unsigned long)v; std::printf("%s fromu64 %llu => %llx\n", hdr, v, enc(c)); }
 	}
 	static void around_d(double v) {
 		fromd(v); fromd(std::nextafter(v, INFINITY)); fromd(std::nextafter(v, -INFINITY));
